@@ -56,9 +56,9 @@ def main():
     rc = 2
     try:
         mod = importlib.import_module("harness.props." + pid.lower())
-        # one lock per property: two runs of the same check never build concurrently; different
-        # properties build disjoint targets (shared dependencies are built by setup.sh)
-        with open(os.path.join(common.LEAN_DIR, ".verif-build-%s.lock" % pid), "w") as lk:
+        # one lock for translate + build + audit: checks that share a generated file
+        # (C01/C02 SqlProgram, C05/C06 CopyFlags) must not rebuild it under each other's feet
+        with open(os.path.join(common.LEAN_DIR, ".verif-build.lock"), "w") as lk:
             fcntl.flock(lk, fcntl.LOCK_EX)
             has_translator = hasattr(mod, "translate")
             if has_translator:
